@@ -225,7 +225,7 @@ def execute(prop, run):
             if not tags.get('ref'):
                 continue
             rec = ex.records.get(ev['id'])
-            if rec is None or rec['outcome'] in ('skip',):
+            if rec is None or rec['outcome'] in ('skip', 'hung'):
                 continue
             if rec['outcome'] == 'died' and not tags.get('ref_died', True):
                 continue
